@@ -304,6 +304,10 @@ def gen_server_call(rng, sh):
         return [S_EXTRESP, rng.choice([0, 0, 0, mid]), msgs.opt(name), msgs.opt(None), code, msgs.g_text(rng), msgs.g_text(rng), cs]
     kind = sh.open.get(mid)
     r = rng.random()
+    if kind is not None and r < 0.06:
+        # the server announces the disconnection in answer to an outstanding request: by OID string (even variant)
+        # or by enum member (odd variant, see _ext_name)
+        return [S_EXTRESP, mid, msgs.opt(msgs.OID_NOTICE), msgs.opt(None), rng.choice([52, 2, 8, 80]), b"", msgs.g_text(rng), cs]
     if kind == "search" and r < 0.7:
         k = rng.choice([S_ENTRY, S_ENTRY, S_REF, S_DONE])
     elif kind == "bind" and r < 0.7:
@@ -437,8 +441,8 @@ def _meta_of(ms):
     return [[m[0], m[1][0], (m[1][1][0] if m[1][0] in (1, 5, 8) else None), bool(m[1][0] == 8 and m[1][2] == [msgs.OID_NOTICE])] for m in ms]
 
 
-def _ok_result():
-    return [0, b"", b"", []]
+def _ok_result(code=0):
+    return [code, b"", b"", []]
 
 
 def gen_long_history(rng, role, cycles=None):
@@ -464,9 +468,10 @@ def gen_long_history(rng, role, cycles=None):
                 if k == "search":
                     if rng.random() < 0.5:
                         ms.append([mid, [4, b"cn=x", [[b"cn", [b"x"]]]], []])
-                    ms.append([mid, [5, _ok_result()], []])
+                    ms.append([mid, [5, _ok_result(4096 + mid)], []])
                 else:
-                    ms.append([mid, [8, _ok_result(), [], []], []])
+                    # hundreds of DISTINCT result codes the enum does not list (process-wide pseudo-members)
+                    ms.append([mid, [8, _ok_result(20000 + mid), [], []], []])
             if rng.random() < 0.3:
                 rng.shuffle(ms)
                 ms = [m for m in ms if m[1][0] != 5] + [m for m in ms if m[1][0] == 5]
@@ -486,9 +491,9 @@ def gen_long_history(rng, role, cycles=None):
                     if rng.random() < 0.5:
                         calls.append([S_ENTRY, mid, b"cn=x", [[b"cn", [b"x"]]], []])
                         meta.append(None)
-                    calls.append([S_DONE, mid, 0, b"", b"", []])
+                    calls.append([S_DONE, mid, 4096 + mid, b"", b"", []])
                 else:
-                    calls.append([S_EXTRESP, mid, [], [], 0, b"", b"", []])
+                    calls.append([S_EXTRESP, mid, [], [], 20000 + mid, b"", b"", []])
                 meta.append(None)
             if rng.random() < 0.2:
                 calls.append([DRAIN, msgs.opt(rng.choice([None, 7, 100]))])
@@ -510,14 +515,14 @@ def gen_long_history(rng, role, cycles=None):
     if role == CLIENT:
         calls.append([C_EXT, b"1.2.3", [], []])
         meta.append(None)
-        m = [nid, [8, _ok_result(), [], []], []]
+        m = [nid, [8, _ok_result(118), [], []], []]
         calls.append([RECV, msgs.pack(m)])
         meta.append(_meta_of([m]))
     else:
         m = [nid, [7, b"1.2.3", []], []]
         calls.append([RECV, msgs.pack(m)])
         meta.append(_meta_of([m]))
-        calls.append([S_EXTRESP, nid, [], [], 0, b"", b"", []])
+        calls.append([S_EXTRESP, nid, [], [], 118, b"", b"", []])
         meta.append(None)
     calls.append([DRAIN, msgs.opt(None)])
     meta.append(None)
